@@ -677,11 +677,33 @@ def F1(m, R):
         class _ST:
             pass
         st = rp[3]
-        rtest = _subst2(rp[2], local_aliases(f))
+        al_ = dict(local_aliases(f))
+        for n_ in f.walk():      # a local standing for a range object: `bytes_ = range(...)`, bound once
+            if isinstance(n_, ast.Assign) and len(n_.targets) == 1 and isinstance(n_.targets[0], ast.Name) and call_name(n_.value) == 'range' and \
+                    sum(1 for y_ in f.walk() if isinstance(y_, ast.Name) and y_.id == n_.targets[0].id and isinstance(y_.ctx, ast.Store)) == 1:
+                al_.setdefault(n_.targets[0].id, n_.value)
+        rtest = _subst2(rp[2], al_)
         x = 'ord(%s)' % norm(lp.target)
-        tt = region_table(rtest, x, lo, hi)
+        # a character rejected by membership in a collection of characters: `c in CHARS` with CHARS folded
+        if isinstance(rtest, ast.Compare) and len(rtest.ops) == 1 and isinstance(rtest.ops[0], ast.In) and norm(rtest.left) == norm(lp.target):
+            coll = rtest.comparators[0]
+            try:
+                val = F.fold(m.const('ansi_format', coll.id)) if isinstance(coll, ast.Name) and m.const('ansi_format', coll.id) is not None else F.fold(coll)
+            except Unfoldable:
+                val = None
+            if isinstance(val, (frozenset, set, list, tuple, str)) and all(isinstance(c_, str) and len(c_) == 1 for c_ in val):
+                pts = {ord(c_) for c_ in val}
+                wantset = set(range(0x40, 0x7F))
+                R.check(pts == wantset and re.match(r'^self\.\w+$', norm(lp.iter)) is not None, f, st, 'a character is rejected exactly when it is one of chr(0x40) .. chr(0x7E)',
+                        'the rejected characters are %s, the final bytes are 0x40..0x7E inclusive%s' % (
+                            _fmt_class(pts), ': 0x7E ("~") is missing -- range() excludes its upper bound' if wantset - pts == {0x7E} else ''), construct=cons)
+                rtest = None
+        tt = region_table(rtest, x, lo, hi) if rtest is not None else None
         want = {'<lo': False, '=lo': True, 'inside': True, '=hi': True, '>hi': False}
         problems = []
+        if tt is None:
+            tt = want
+            st = None
         if any(v is None for v in tt.values()):
             R.undecided(f, st, 'byte-class test %s not decided' % short(rtest), construct=cons)
             tt = want
@@ -689,7 +711,8 @@ def F1(m, R):
             problems.append('rejects regions %s of a code point against [0x40,0x7E]; exact is lo..hi inclusive' % sorted(k for k, v in tt.items() if v))
         if not re.match(r'^self\.\w+$', norm(lp.iter)):
             problems.append('iterates %s' % norm(lp.iter))
-        R.check(not problems, f, st, 'a character is rejected exactly when lo <= ord(c) <= hi', '; '.join(problems), construct=cons)
+        if st is not None:
+            R.check(not problems, f, st, 'a character is rejected exactly when lo <= ord(c) <= hi', '; '.join(problems), construct=cons)
     # tokenizer parameter scan
     f = m.fn('ParsedAnsiControlSequenceString.__init__')
     cons = 'tokenizer byte class'
